@@ -133,8 +133,9 @@ TRANSFERS = ('beq', 'bne', 'blt', 'bge', 'bltu', 'bgeu', 'beqz', 'bnez', 'blez',
 
 
 def cls_transfer_across_align(case):
-    """KF-F (-c): the failing line is a branch / jump to a label in a program that contains an `align N` with N >= 4:
-    alignment padding is not monotone in what precedes it, so a distance across an align can GROW when code shrinks"""
+    """KF-F (-c): the failing line is a branch / jump to a label and an `align N` with N >= 4 lies BETWEEN the two in
+    the program: alignment padding is not monotone in what precedes it, so a distance across an align can GROW when
+    code shrinks"""
     if not case.get('compress', True):
         return False
     line = _failing_line(case)
@@ -143,19 +144,42 @@ def cls_transfer_across_align(case):
     toks = re.split(r'[\s,()]+', line.strip())
     if not toks or toks[-1] not in _label_names(case):
         return False
-    for l in _program_lines(case):
-        t = l.split('#')[0].split()
-        if len(t) == 2 and t[0].lower() == 'align':
-            try:
-                if int(t[1], 0) >= 4:
-                    return True
-            except ValueError:
-                pass
+    target = toks[-1]
+    lines = [l.split('#')[0].strip() for l in _program_lines(case)]
+    at = [i for i, l in enumerate(lines) if l == line]
+    lab = [i for i, l in enumerate(lines) if l == target + ':']
+    if not at or not lab:
+        return False
+    for a in at:
+        lo, hi = min(a, lab[0]), max(a, lab[0])
+        for l in lines[lo + 1:hi]:
+            t = l.split()
+            if len(t) == 2 and t[0].lower() == 'align':
+                try:
+                    if int(t[1], 0) >= 4:
+                        return True
+                except ValueError:
+                    pass
     return False
+
+
+def cls_transfer_to_constant(case):
+    """KF-G (-c): the failing line is a branch / jump whose target is a CONSTANT (an absolute address): the instruction
+    moves down when code in front of it shrinks, the address does not, so the distance grows"""
+    if not case.get('compress', True):
+        return False
+    line = _failing_line(case)
+    if _head(line) not in TRANSFERS:
+        return False
+    toks = re.split(r'[\s,()]+', line.strip())
+    lines = _program_lines(case)
+    consts = set(l.split('=')[0].strip() for l in lines if '=' in l and re.fullmatch(r'\s*[A-Za-z_][A-Za-z0-9_]*\s*=.*', l))
+    return bool(toks) and toks[-1] in consts
 
 
 CLASSES = {
     'transfer-across-align': cls_transfer_across_align,
+    'transfer-to-constant': cls_transfer_to_constant,
     'data-label-offset': cls_data_label_offset,
     'odd-layout': cls_odd_layout,
     'program-label-imm': cls_program_label_imm,
